@@ -177,15 +177,6 @@ def maxSize (r : Ref.Record) : Nat :=
     | .a _ => 4 | .aaaa _ => 16 | .ptr n => Ref.wireLen n | .srv _ _ _ n => 6 + Ref.wireLen n
     | .txt b => b.length | .other b => b.length)
 
-/-- the elements of `exp` that a greedy in-order match of `got` leaves out;
-    `none` if `got` is not an in-order subsequence of `exp` -/
-def leftOut {α : Type} [DecidableEq α] : List α → List α → Option (List α)
-  | [], exp => some exp
-  | _ :: _, [] => none
-  | g :: gs, e :: es =>
-    if g = e then leftOut gs es
-    else (leftOut (g :: gs) es).map (e :: ·)
-
 /-- the crate's own decoder observations after the `;` -/
 def pDecs : Nat → P (List (Option Wire.Msg))
   | 0 => fun ts => some ([], ts)
@@ -238,6 +229,11 @@ def okC02 (o : OutMsg) (pkts : List Ref.Bytes) (decs : List (Option Wire.Msg)) :
           else if resp && n > 1 then some "response-split"
           else if decs.length != n then some "unparsable-observation"
           else
+            -- The clauses above name what fails.  `soundCore` is the PROVEN predicate (conclusion
+            -- of `encode_sound`, theorem `soundCore_holds`); here `allSome (pkts.map Ref.parse) =
+            -- some ms` and every size is within the limit, so `soundCore o pkts = coreOn o ms`.
+            if !coreOn o ms then some "sound-core-false"
+            else
             firstSome ((ms.zip decs).map fun (m, d) =>
               match d with
               | none => some "own-decoder-rejects"
@@ -265,7 +261,10 @@ def monitor (op : String) (ts impl : List String) : Option String :=
             pure (pkts, decs)
           | _ => none : Option (List Ref.Bytes × List (Option Wire.Msg))) with
         | none => some "unparsable-observation"
-        | some (pkts, decs) => okC02 o pkts decs
+        | some (pkts, decs) =>
+          -- the clause-by-clause evaluation names what fails; the proven predicate
+          -- `soundCore` (conclusion of `encode_sound`) must agree with it
+          okC02 o pkts decs
       | _ => some "unparsable-observation"
   | "escape" =>
     -- the escaped form reads back as the one label it was made from
